@@ -12,7 +12,7 @@ pub fn meta() -> Meta {
         level: "exploration",
         rule: "bounded derivations of the reference grammar: spines of k compound-statement contexts (16 contexts: every body of if/else/while/for/case/default/gate/def as block or single statement) around each of ~65 leaf statement templates, all sequences of n top-level statements, all expression trees with two (three) operators over 19 binary and 3 unary operators in 12 expression positions; each program printed with minimal, full and redundant parentheses and 7 uniform separator flavours and parsed through both entry points; non-trivial = the program has a compound statement or an operator expression; outcomes = distinct tree shapes",
         assumptions: vec![
-            "the claimed grammar is the one listed in DESIGN.md 4.4 (official-grammar forms of the constructs the statement names); arrow measurement, defcal/cal, box, durationof, arrays, extern and old-style declarations are outside it",
+            "the reference grammar of the model is the one listed in DESIGN.md 4.4 (official-grammar forms of the constructs the statement names); arrays, extern, defcal/cal, durationof, old-style registers and built-in calls are covered by a fixed list of 54 statement texts in 5 positions and 6 separator flavours instead; arrow measurement and box statements, which the parser does not accept, are outside the claim",
             "a blank, not arbitrary trivia, separates a number from its unit",
         ],
     }
@@ -61,6 +61,109 @@ pub fn oracle(case: &ProgCase, index: u64, ctx: &mut Ctx) {
     }
 }
 
+/// Statements of constructs outside the reference grammar of the model that the parser
+/// supports (arrays, extern, calibration blocks, old-style registers, durationof, alias
+/// concatenation, built-in calls), tokens separated by single blanks.
+pub const EXTRA_VALID: &[&str] = &[
+    "array [ int [ 8 ] , 4 ] a ;",
+    "array [ float [ 64 ] , 2 , 3 ] m ;",
+    "array [ uint [ 8 ] , 2 ] a = { 1 , 2 } ;",
+    "array [ int [ 8 ] , 2 , 2 ] a = { { 1 , 2 } , { 3 , 4 } } ;",
+    "array [ bool , 2 ] a ;",
+    "array [ complex [ float [ 32 ] ] , 2 ] a ;",
+    "array [ angle [ 8 ] , 3 ] a ;",
+    "array [ duration , 3 ] a ;",
+    "input array [ int [ 8 ] , 4 ] ia ;",
+    "output array [ uint [ 8 ] , 2 ] ob ;",
+    "input array [ float [ 64 ] , 2 , 2 ] ia ;",
+    "const array [ int [ 8 ] , 2 ] a = { 1 , 2 } ;",
+    "def f ( readonly array [ int [ 8 ] , 4 ] a ) { }",
+    "def f ( mutable array [ int [ 8 ] , #dim = 1 ] a ) { }",
+    "def f ( qubit q1 , qubit [ 2 ] q2 , int [ 8 ] n ) -> bit { return measure q1 ; }",
+    "extern g ( int , float [ 32 ] ) -> int ;",
+    "extern g ( ) -> bit [ 4 ] ;",
+    "duration d2 = durationof ( { h r ; } ) ;",
+    "defcalgrammar \"openpulse\" ;",
+    "cal { }",
+    "defcal x $0 { }",
+    "defcal rx ( angle [ 20 ] t ) $0 { }",
+    "qreg q2 [ 2 ] ;",
+    "creg c2 [ 2 ] ;",
+    "let al = q [ 0 : 1 ] ++ q [ 2 : 3 ] ;",
+    "int s2 = sizeof ( a ) ;",
+    "a [ 0 ] = 1 ;",
+    "int y = a [ 1 ] [ 2 ] ;",
+    "int y = a [ 1 , 2 ] ;",
+    "float [ 32 ] z = arcsin ( 0.5 ) ;",
+    "duration d3 = 2 * d ;",
+    "delay [ 2 * d ] r ;",
+    "stretch g ;",
+    "U ( pi , 0 , pi / 2 ) $1 ;",
+    "gphase ( pi / 4 ) ;",
+    "for uint i in { 1 , 2 , 3 } a = i ;",
+    "for int i in m { }",
+    "for bit b1 in m { }",
+    "for int [ 8 ] i in [ 0 : 2 : 8 ] { }",
+    "switch ( a ) { case 1 { } case 2 , 3 { } default { } }",
+    "bool t = a == 1 && b != 2 || ! ( c < 3 ) ;",
+    "int r2 = a ** 2 % 3 ;",
+    "complex [ float [ 64 ] ] c1 = 1.0 + 2.0 im ;",
+    "bit [ 4 ] b4 = \"0101\" ;",
+    "uint [ 8 ] u8 = 0xFF ;",
+    "int big = 1_000_000 ;",
+    "float f2 = 1.5e-3 ;",
+    "duration d4 = 1.5 us ;",
+    "if ( a < 3 ) h r ; else x r ;",
+    "return ;",
+    "end ;",
+    "nop ;",
+    "nop $0 ;",
+    "nop $1 , $2 ;",
+];
+
+fn extra_texts() -> Vec<String> {
+    let mut v = Vec::new();
+    for t in EXTRA_VALID {
+        for (pre, post) in [("", ""), ("int pre ; ", ""), ("", " int post ;"), ("if ( true ) { ", " }"), ("while ( a ) { int pre ; ", " a ; }")] {
+            // definitions stay at the top level
+            let top_only = t.starts_with("def ") || t.starts_with("extern ") || t.starts_with("defcal") || t.starts_with("cal ") || t.starts_with("input ") || t.starts_with("output ") || t.starts_with("qreg") || t.starts_with("creg") || t.starts_with("return");
+            if top_only && pre.contains('{') {
+                continue;
+            }
+            let base = format!("{}{}{}", pre, t, post);
+            for sep in [" ", "\n", "\t", "/*c*/", "//c\n", "  \n "] {
+                // a comment directly after the division sign would start another comment
+                if sep.starts_with('/') && base.contains(" / ") {
+                    continue;
+                }
+                v.push(base.replace(' ', sep));
+            }
+        }
+    }
+    v
+}
+
+fn extra_oracle(text: &str, ctx: &mut Ctx) {
+    for (entry, r) in [("SourceFile::parse", subject::parse(text).map(|p| p.errors().first().map(|e| (e.message().to_string(), usize::from(e.range().start()))))), ("SourceFile::parse_check_lex", subject::parse_check_lex(text).map(|p| p.errors().first().map(|e| (e.message().to_string(), usize::from(e.range().start())))))] {
+        match r {
+            Err(_) => ctx.count("skipped_not_returning", 1),
+            Ok(Some((msg, off))) => ctx.fail(Failure {
+                rule: "accepted".into(),
+                witness: text.to_string(),
+                locus: format!("{} | extra", msg),
+                detail: format!("{} reports `{}` at byte {} of `{}`", entry, msg, off, show(text)),
+                case: json!({"text": text}),
+            }),
+            Ok(None) => {
+                ctx.mark_nontrivial(fnv_str(text));
+                ctx.outcome(fnv_str(text.split_whitespace().next().unwrap_or("")));
+            }
+        }
+    }
+}
+
 pub fn spaces(tier: Tier, _seed: u64) -> Vec<Box<dyn Space>> {
-    gprog::syntax_spaces(tier, oracle)
+    let mut v = gprog::syntax_spaces(tier, oracle);
+    v.push(crate::space::TextSpace::list("EXTRA-VALID (constructs outside the model grammar that the parser supports)", extra_texts(), 64, extra_oracle));
+    v
 }
